@@ -43,7 +43,7 @@ def run(prop, path):
             return 1
         log(f'the recorded schedule (seed {sch["seed"]}, {len(groups)} calls, 8 threads) gives the sequential results on the current tree')
         return 0
-    if prop in FIELD and 'replay' in v and 'content' in v['replay']:
+    if prop in FIELD and 'replay' in v and 'content' in v['replay'] and v['replay'].get('api') is None:   # records of other entry points (make_sequence, encoder.encode_sequence): generic replay below
         import p_symbols
         st = prepare(prop)
         res = Result()
